@@ -10,8 +10,10 @@ a camera, explicit or geom-derived inertia.  Every applicable rewriting of a bas
            class= or by childclass= of the body;
   frame    body (and geom/site) given directly with the composed pose vs wrapped in <frame pos quat>;
   repl     <replicate count offset euler> vs written-out copies with the documented cumulative poses and names;
-  attach   child spec attached with mjs_attach (to a body through a frame, to a frame, to a site) vs the same subtree
-           written inline with prefixed names;
+  attach   child spec attached with mjs_attach vs the same subtree written inline with prefixed names in nested frames:
+           every admitted (target, child element) combination -- frame<-body, frame<-frame, site<-body, site<-frame,
+           body<-frame (child frame = a non-identity frame holding the subtree) -- x the target frame/site declared
+           directly in the host body or inside 1, 2 (thorough: 3) nested non-identity <frame>s;
   fuse     fusestatic on vs off; visual  discardvisual on vs off (kept bodies compared by name);
   setconst runtime edit of a real-valued mjModel parameter + mj_setConst vs editing the spec field and recompiling.
 
@@ -39,7 +41,7 @@ META = dict(
               "differential oracle on compiled arrays and 100-step trajectories; orientation reference model from the documentation",
     text="Every base model of the alphabet is rewritten in every applicable equivalent spelling (orientation "
          "quat/axisangle/euler x 4 sequences/xyaxes/zaxis, degree vs radian, nested default classes and childclass, "
-         "frames, replicate vs copies, mjs_attach vs inline, fusestatic, discardvisual) and both are compiled by the "
+         "frames, replicate vs copies, mjs_attach (frame/site/body target, body/frame child, target nested in 0-3 frames) vs inline, fusestatic, discardvisual) and both are compiled by the "
          "tree's compiler: arrays that must coincide are compared (1e-12) and the kept bodies' poses along a 100-step "
          "trajectory agree to 1e-9. A runtime edit of each real-valued parameter followed by mj_setConst is compared "
          "with recompiling the edited spec on every model array.",
@@ -452,56 +454,98 @@ def elem(ptr):
     return ctypes.cast(ptr, ctypes.POINTER(ctypes.c_void_p))[0]
 
 
+# poses of the frames that enclose the attachment target (outermost first) and of the child frame; all non-identity
+ENCL = [((0.03, -0.05, 0.08), (0.9, 0.2, -0.3, 0.1)), ((-0.04, 0.02, 0.05), (0.5, 0.5, -0.5, 0.5)), ((0.02, 0.06, -0.03), (0.3, -0.1, 0.2, 0.9))]
+CHILD_FRAME = ((0.04, 0.03, -0.02), (0.8, -0.2, 0.1, 0.5))
+_OPTS = {"attach_depths": (0, 1, 2)}
+
+
+def attach_cases(depths):
+    """(target kind, child kind, number of frames enclosing the target): every parent/child combination mjs_attach admits
+    (frame<-body, frame<-frame, site<-body, site<-frame, body<-frame) x nesting depth of the target element."""
+    out = []
+    for tk, ck in (("frame", "body"), ("frame", "frame"), ("site", "body"), ("site", "frame")):
+        for d in depths:
+            out.append((tk, ck, d))
+    out.append(("body", "frame", 0))
+    return out
+
+
 def fam_attach(lib, part, par, js, vfs):
-    """Child spec (the forest) attached under a frame / a site / a body (through a child frame) of a parent spec,
-    vs the same subtree written inline with prefixed names."""
+    """Child spec (the forest; its root body, or a non-identity frame holding the root body) attached with mjs_attach to a
+    frame / a site / the body of a parent spec -- the frame or site being declared directly in the host body or inside
+    1..3 nested non-identity <frame>s -- vs the same subtree written inline with prefixed names in nested frames."""
     ori = lambda k: orient("axisangle", k, True)
-    child_xml = tree(par, js, ori=ori)
-    body_txt = child_xml.split("<worldbody>\n")[1].split("  </worldbody>")[0]
-    import re
-    pre = "p_"
-    inl = re.sub(r'name="([a-z]+\d+(?:_\d+)?)"', lambda m: 'name="%s%s"' % (pre, m.group(1)), body_txt)
-    host_head = '<mujoco>\n  <compiler angle="radian" usethread="false"/>\n  <option timestep="0.002"/>\n  <worldbody>\n'
-    host = (host_head + '    <body name="host" pos="0 0 1" quat="0.9 0.1 0.2 -0.3">\n      <joint name="hj" axis="0 1 0" damping="0.2"/>\n'
-            '      <geom name="hg" size="0.05" contype="0" conaffinity="0"/>\n      <site name="hs" pos="0.1 0 0.1" quat="0.8 0 0.6 0"/>\n'
-            '      <frame name="hf" pos="0.1 0.2 0" quat="0.6 0 0 0.8">%s</frame>\n%s    </body>\n  </worldbody>\n</mujoco>\n')
     roots = [i for i, p in enumerate(par) if p == -1]
     if len(roots) != 1 or "free" in js:
         return      # one subtree root per attachment; free joints are only legal at the top level
     root = "b%d" % roots[0]
-    for kind in ("frame", "site"):
-        parent = lib.parse_xml(host % ("", ""), vfs)
+    child_body_xml = tree(par, js, ori=ori)
+    body_txt = child_body_xml.split("<worldbody>\n")[1].split("  </worldbody>")[0]
+    cf_open = '<frame name="cf" pos="%s" quat="%s">\n' % (fmt(CHILD_FRAME[0]), fmt(CHILD_FRAME[1]))
+    child_frame_xml = child_body_xml.replace("<worldbody>\n", "<worldbody>\n" + cf_open).replace("  </worldbody>", "</frame>\n  </worldbody>")
+    import re
+    pre = "p_"
+    inl_body = re.sub(r'name="([a-z]+\d+(?:_\d+)?)"', lambda m: 'name="%s%s"' % (pre, m.group(1)), body_txt)
+    host_head = '<mujoco>\n  <compiler angle="radian" usethread="false"/>\n  <option timestep="0.002"/>\n  <worldbody>\n'
+    SITE = 'pos="0.1 0 0.1" quat="0.8 0 0.6 0"'
+
+    def host(depth, in_hf="", at_site="", in_body=""):
+        """host body; site hs and frame hf sit inside `depth` nested frames; in_hf: content of hf; at_site: siblings of hs
+        (inside the same nested frames); in_body: direct children of the host body."""
+        opn = "".join('<frame pos="%s" quat="%s">' % (fmt(p), fmt(q)) for p, q in ENCL[:depth])
+        cls = "</frame>" * depth
+        return (host_head + '    <body name="host" pos="0 0 1" quat="0.9 0.1 0.2 -0.3">\n      <joint name="hj" axis="0 1 0" damping="0.2"/>\n'
+                '      <geom name="hg" size="0.05" contype="0" conaffinity="0"/>\n'
+                '      %s<site name="hs" %s/>\n'
+                '      <frame name="hf" pos="0.1 0.2 0" quat="0.6 0 0 0.8">%s</frame>\n%s%s\n%s    </body>\n  </worldbody>\n</mujoco>\n'
+                % (opn, SITE, in_hf, at_site, cls, in_body))
+    for tk, ck, depth in attach_cases(_OPTS["attach_depths"]):
+        # one key per (target, child element, target nested or not); the depth is in the message and the replay
+        kind = (tk if ck == "body" else "%s<-%s" % (tk, ck)) + (", target inside nested frames" if depth else "")
+        where = "%s<-%s, %d frame%s around the target" % (tk, ck, depth, "" if depth == 1 else "s")
+        child_xml = child_body_xml if ck == "body" else child_frame_xml
+        inl = inl_body if ck == "body" else "      " + cf_open + inl_body + "      </frame>\n"
+        parent = lib.parse_xml(host(depth), vfs)
         child = lib.parse_xml(child_xml, vfs)
         m_att = None
         try:
-            if kind == "frame":
+            if tk == "frame":
                 tgt = elem(lib.mjs_findFrame(parent, b"hf"))
-            else:
+            elif tk == "site":
                 tgt = lib.mjs_findElement(parent, 6, b"hs")
-            src = elem(lib.mjs_findBody(child, root.encode()))
+            else:
+                tgt = elem(lib.mjs_findBody(parent, b"host"))
+            src = elem(lib.mjs_findBody(child, root.encode())) if ck == "body" else elem(lib.mjs_findFrame(child, b"cf"))
+            if not tgt or not src:
+                raise RuntimeError("attach %s: target/source element not found" % kind)
             if not lib.mjs_attach(tgt, src, pre.encode(), b""):
-                part.violation("attach: mjs_attach failed: " + R_norm(lib.cstr(lib.mjs_getError(parent)) or ""), "attach %s %s %s" % (kind, par, js),
-                               {"family": "attach", "kind": kind, "child": child_xml})
+                part.violation("attach: mjs_attach failed: " + R_norm(lib.cstr(lib.mjs_getError(parent)) or ""), "attach %s %s %s" % (where, par, js),
+                               {"family": "attach", "kind": kind, "child": child_xml, "host": host(depth)})
                 continue
             m_att = lib.compile(parent, vfs)
-            if kind == "frame":
-                xa = host % ("\n" + inl + "      ", "")
+            if tk == "frame":
+                xa = host(depth, in_hf="\n" + inl + "      ")
+            elif tk == "site":
+                # an element attached to a site sits in a frame at the site's pose, next to the site
+                xa = host(depth, at_site='      <frame %s>\n%s      </frame>\n' % (SITE, inl))
             else:
-                # a body attached to a site sits in a frame at the site's pose
-                xa = host % ("", '      <frame pos="0.1 0 0.1" quat="0.8 0 0.6 0">\n%s      </frame>\n' % inl)
+                xa = host(depth, in_body=inl)
             m_inl = lib.load_xml(xa, vfs)
-            replay = {"family": "attach", "kind": kind, "inline": xa, "child": child_xml, "host": host % ("", ""), "prefix": pre}
-            part.count(1, key=("attach", kind, par, js))
+            replay = {"family": "attach", "kind": kind, "target": tk, "child_element": ck, "frames_around_target": depth,
+                      "inline": xa, "child": child_xml, "host": host(depth), "prefix": pre}
+            part.count(1, key=("attach", tk, ck, depth, par, js))
+            part.add("attach_%s<-%s_depth%d" % (tk, ck, depth))
             bad, noise = cmp_arrays(lib, m_inl, m_att, TOL_ARR, skip={"names", "names_map", "paths"} | {f for f in m_inl.fields() if f.startswith("name_")})
             if bad:
                 part.violation("attach (%s): compiled arrays differ from the inline spelling [%s]" % (kind, ",".join(f for f, _ in bad[:4])),
-                               "attach to %s %s %s: %s" % (kind, par, js, bad[:6]), replay)
+                               "attach %s %s %s: %s" % (where, par, js, bad[:6]), replay)
             w, n = cmp_traj(lib, m_inl, m_att)
             if w is not None:
                 part["extra"]["max_traj_dev_attach"] = max(part["extra"].get("max_traj_dev_attach", 0.0), w)
                 part.add("trajectories_compared")
                 if w > TOL_TRAJ:
-                    part.violation("attach (%s): trajectories of kept bodies diverge" % kind, "attach %s %s %s: %.3g (%d bodies)" % (kind, par, js, w, n), replay)
+                    part.violation("attach (%s): trajectories of kept bodies diverge" % kind, "attach %s %s %s: %.3g (%d bodies)" % (where, par, js, w, n), replay)
             m_inl.free()
         finally:
             if m_att is not None:
@@ -659,6 +703,7 @@ def run(ctx):
     nmax = ctx.q(2, 3)
     menu = ctx.q(["none", "hinge", "slide", "ball", "free"], ["none", "hinge", "slide", "ball", "free", "hinge2", "slidehinge"])
     bases = list(base_models(nmax, menu))
+    _OPTS["attach_depths"] = ctx.q((0, 1, 2), (0, 1, 2, 3))
     items = [(f, par, js) for par, js in bases for f, _ in FAMILIES]
     R.rpmap(ctx, _item, items, init=_init, label=lambda it: "%s %s %s" % it)
     ctx.extra["violation_keys"] = sorted(v[0] for v in ctx.violations)
@@ -666,9 +711,12 @@ def run(ctx):
     ctx.extra["families"] = [f for f, _ in FAMILIES]
     ctx.rule = ("base models = all forests <= %d bodies x joint menu %s (not all-welded); each x every rewriting family: %d orientation "
                 "spellings (reference quats from the documented conventions), degree/radian x 3 spellings, 3 default-class "
-                "hoistings, frame wrapping, replicate x3 vs copies, mjs_attach to frame/site vs inline, fusestatic, discardvisual, "
-                "%d runtime edits + mj_setConst vs spec edit + recompile; non-trivial = every (family, spelling, base model) pair "
-                "that compiled and was compared" % (nmax, menu, len(SPELLS), len(EDITS)))
+                "hoistings, frame wrapping, replicate x3 vs copies, mjs_attach vs inline for %d (target<-child element, number of "
+                "non-identity frames enclosing the target) cases = {frame,site}<-{body,frame} x depths %s + body<-frame, fusestatic, "
+                "discardvisual, %d runtime edits + mj_setConst vs spec edit + recompile; non-trivial = every (family, spelling, base "
+                "model) pair that compiled and was compared"
+                % (nmax, menu, len(SPELLS), len(attach_cases(_OPTS["attach_depths"])), list(_OPTS["attach_depths"]), len(EDITS)))
+    ctx.extra["attach_cases"] = ["%s<-%s depth %d" % c for c in attach_cases(_OPTS["attach_depths"])]
     ctx.assumptions = ["arrays: bit-exact for default-class rewritings, 1e-12 of the array scale where trigonometry is involved "
                        "(float32 arrays 1e-6), 1e-9 for mj_setConst; trajectories: 1e-9 absolute on positions (m) and unit quaternions after 100 steps",
                        "contacts disabled (contype=conaffinity=0) so that trajectories are smooth",
